@@ -11,7 +11,12 @@
                   (types text, flex, container, tag, image, image_ascii, glyph, ref) are trees of this type;
                   "color" cannot be deserialised at all, custom handler types are whatever they return.
      ct, Valid    BoxConstraint with min <= max per axis (any extents, including 0 and 1)
-     vctx         glyph capability, char widths, pixels per cell
+     vctx         glyph capability, char widths, pixels per cell (ppc_h, ppc_w: any numbers, 0 included),
+                  v_share: the flex share as a function of (positive factors, index of the flex child,
+                  remaining space) -- ANY function: every theorem below holds for every share function, hence
+                  for whatever binary64 arithmetic yields for the factors that pass the filter (finite, > 0;
+                  all other factors make the child a non-flex child) --, v_frag: the images of the nine
+                  fragments of a Frame border -- any nine images
      layout       View::layout: outcome of a layout tree (Panic where the code would panic)
      render       View::render over a surface `sh` of a backing slice, through Layout::apply_to
      Rep H W sh w (C07) `sh` is the surface of window `w` of an H x W canvas (plain, offset, strided,
@@ -19,16 +24,19 @@
 From Coq Require Import List Arith Bool NArith ZArith.
 From SNT Require Import Base.Outcome Surface.Bounds Surface.Shape Surface.ShapeProofs
   Render.CellLayout Render.Writer Render.WriterFrame View.ViewModel View.LayoutProofs View.RenderProofs
-  View.PaintProofs View.FitsProofs.
+  View.PaintProofs View.FitsProofs View.DisjointProofs.
 Import ListNotations.
 Local Open Scope N_scope.
 
 (* (1) Layout is total: for every view tree, both glyph settings (any context) and every valid
    constraint -- any extents, usize::MAX included: the model saturates where the repaired code
-   saturates -- View::layout returns a layout tree; it never panics.  Flex factors of the model are
-   positive numerators over a common denominator; for those the f64 share computation of
-   flex_layout is exact as long as remain * factor < 2^53 (assumption, see design/C10.md); for
-   other doubles the share is whatever f64 yields, capped by the remaining space. *)
+   saturates -- View::layout returns a layout tree; it never panics.  The share a flex child is
+   offered is `min (v_share vc factors idx remain) remain` for an arbitrary v_share (the repaired code
+   caps `(remain * (flex / total)).round() as usize` by the remaining space; the intermediate doubles
+   need not be finite -- 1.0 / 1e-320 is +inf -- and the `as usize` cast maps NaN to 0 and +inf to
+   usize::MAX, which is why the cap, not the arithmetic, bounds the share).  The correspondence
+   check instantiates v_share with exact_share (round half up of remain * f / total) for factors
+   that are small dyadic numbers, where binary64 is exact. *)
 Theorem C10_layout_total : forall (vc : vctx) (v : vtree) (c : ct),
   Valid c -> exists t, layout vc v c = Ok t.
 Proof. exact layout_total. Qed.
@@ -70,10 +78,13 @@ Proof. intros H W vc v c sh w s Hmax Hv Hrep Hlen. exact (layout_render_total H 
 
 (* (5) Every leaf paints exactly the rectangle the layout tree records for it.  `paints` walks view
    and layout tree together and computes, in the plain-matrix window algebra of C07, the window each
-   probe leaf must be handed: the (position, size) rectangles of the layout nodes on its path, cut one
-   out of the other and clipped (win_apply).  A completed rendering pass has called the probes it
-   reaches in that order, each with a surface that IS that window (Rep); by C07 the probe's fill then
-   rewrites exactly the cells of that window. *)
+   leaf must be handed: the (position, size) rectangles of the layout nodes on its path, cut one
+   out of the other and clipped (win_apply).  Leaves of EVERY kind are listed: text (tag LEAF_TAG+1),
+   str (+2), scroll bar (+6, unless its layout has no extent along its axis: then it returns before
+   touching the surface), fill (+10), image (+12), glyph (+13), surface view (+15), half-block image
+   (+16) and the harness's probe (its own id); unit and Option::None draw nothing.  A completed rendering
+   pass has called the leaves it reaches in that order, each with a surface that IS that window (Rep);
+   by C10_leaf_confined what the leaf changes lies inside that window. *)
 Theorem C10_paint_rect : forall (H W : nat) (vc : vctx) (v : vtree) (t : ltree) (sh : shape) (w : window) (s s' : rst),
   (Z.of_nat (Nat.max H W) <= i64_max)%Z -> Rep H W sh w -> (H * W <= length (r_data s))%nat ->
   render vc v t sh s = Ok s' ->
@@ -86,6 +97,22 @@ Proof. intros H W vc v t sh w s s' Hmax Hrep Hlen E. exact (render_log H W Hmax 
    rectangle contains the (relative) position and ends where no child contains it. *)
 Theorem C10_hit_test : forall (t : ltree) (r c : N), follows t r c (find_path (depth t) t r c).
 Proof. intros t r c. apply find_path_follows. apply Nat.le_refl. Qed.
+
+(* (6b) Siblings never share a point: in every layout tree View::layout produces -- whatever the view
+   tree, context (share function included) and constraint, valid or not -- the rectangles of the
+   children of every node are pairwise disjoint (only Flex has several children; its placing pass
+   starts every child where the previous one ended, saturating).  Hence hit-testing does not depend on
+   the order in which children are tried: a child that contains the position is the one found.
+   Layout trees built by hand (Layout::push at arbitrary positions) can overlap; for those (6) says the
+   first match wins. *)
+Theorem C10_siblings_disjoint : forall (vc : vctx) (v : vtree) (c : ct) (t : ltree),
+  layout vc v c = Ok t -> DisjTree t.
+Proof. exact layout_disjoint. Qed.
+
+Theorem C10_hit_order_free : forall (kids : list ltree) (i : nat) (k : ltree) (r c : N),
+  ForallOrdPairs no_common_point kids -> nth_error kids i = Some k -> contains k r c ->
+  find_child kids 0 r c = Some (i, k).
+Proof. exact disjoint_hit_unique. Qed.
 
 Check C10_layout_total : forall (vc : vctx) (v : vtree) (c : ct), Valid c -> exists t, layout vc v c = Ok t.
 Check C10_within : forall (vc : vctx) (v : vtree) (c : ct) (t : ltree),
@@ -109,12 +136,12 @@ Theorem C10_text_cap_exact : forall (vc : vctx) (cells : list ccell) (wraps : bo
   text_size (v_r vc) cells wraps (N.to_nat maxw).
 Proof. exact text_size_cap. Qed.
 
-(* The defects repaired in the crate (division by zero, underflow, overflows, infinite share, endless
-   loops) are documented by failing inputs replayed on the unrepaired code: corpus/C10/*.jsonl and
+(* The defects repaired in the crate (division by zero, underflow, overflows, infinite share and infinite
+   factor, endless loops, zero-width frame stroke) are documented by failing inputs replayed on the unrepaired code: corpus/C10/*.jsonl and
    known_findings.d/C10.json. *)
 
 (* ---------- non-vacuity ---------- *)
-Definition ex_vc : vctx := mkV (mkCtx true [] dfa0 []) 20 10.
+Definition ex_vc : vctx := mkV (mkCtx true [] dfa0 []) 20 10 exact_share (fun i => 1000 + N.of_nat i).
 Definition ex_tree : vtree :=
   VFlex Hor JAround
     [(VContainer (VProbe 1 2 3) face0 AShrink ACenter (mkM 1 0 UMAX 1) 0 4, None, None, AEnd);
@@ -152,3 +179,32 @@ Example C10_render_nonvacuous :
   | _ => False
   end.
 Proof. vm_compute. split; reflexivity. Qed.
+
+(* every leaf kind appears in the log, in drawing order, each with the window `paints` computes *)
+Definition ex_leaves : vtree :=
+  VFlex Ver JStart
+    [(VText [mkCell face0 (KChar 97)] true, None, None, AStart); (VStr [98], None, None, AStart);
+     (VFill 3, Some 1%positive, None, AStart); (VImage 5 40 20, None, None, AStart);
+     (VGlyph 7 1 2 [99], None, None, AStart); (VSurface 1 1 (mkCell face0 (KChar 100)), None, None, AStart);
+     (VImageAscii 2 2 9, None, None, AStart); (VScrollBar Hor face0 0 1 2, None, None, AStart);
+     (VProbe 4 1 1, None, None, AStart); (VUnit, Some 1%positive, None, AStart)].
+
+Example C10_paint_all_leaves_nonvacuous :
+  match layout ex_vc ex_leaves (mkCt 0 0 12 9) with
+  | Ok t =>
+      match render ex_vc ex_leaves t (of_size 12 9) (mkR (repeat (mkCell face0 (KChar 32)) 108) []) with
+      | Ok s => map fst (r_log s) = map (fun k => LEAF_TAG + k) [1; 2; 10; 12; 13; 15; 16; 6] ++ [4] /\
+                map fst (paints true ex_leaves t (win_root 12 9)) = map fst (r_log s)
+      | _ => False
+      end
+  | _ => False
+  end.
+Proof. vm_compute. split; reflexivity. Qed.
+
+(* two flex children side by side: disjoint, and the second is found for a position inside it *)
+Example C10_siblings_nonvacuous :
+  match layout ex_vc (VFlex Hor JStart [(VProbe 1 2 3, None, None, AStart); (VProbe 2 2 3, None, None, AStart)]) (mkCt 0 0 4 10) with
+  | Ok t => find_path (depth t) t 1 4 = [1%nat] /\ find_path (depth t) t 1 2 = [0%nat] /\ find_path (depth t) t 1 7 = []
+  | _ => False
+  end.
+Proof. vm_compute. repeat split. Qed.
